@@ -254,6 +254,23 @@ pub fn functions_deep() -> Vec<FnRep> {
     fs
 }
 
+/// Long functions of every variant (term counts around and beyond 32 and 64), with distinct ids and
+/// with ids repeating with period 7; returned with the sorted list of ids they mention at most.
+pub fn long_functions() -> Vec<(FnRep, Vec<u64>)> {
+    let mut long: Vec<(FnRep, Vec<u64>)> = vec![];
+    for n in [31usize, 32, 33, 40, 63, 64, 65, 100] {
+        for period in [usize::MAX, 7] {
+            let id = |i: usize| ((i % period) * 3 + 1) as u64;
+            let co = |i: usize| [1.0, -0.5, 2.0, 0.25, -1.0][i % 5];
+            let ids: Vec<u64> = (0..n).map(id).collect::<BTreeSet<u64>>().into_iter().collect();
+            long.push((FnRep::Lin { terms: (0..n).rev().map(|i| (id(i), co(i))).collect(), c: 0.5 }, ids.clone()));
+            long.push((FnRep::Quad { entries: (0..n).map(|i| (id(i), id((i * 5 + 1) % n), co(i))).collect(), lin: Some(((0..n).map(|i| (id(i), co(i + 1))).collect(), -1.0)) }, ids.clone()));
+            long.push((FnRep::Poly { terms: (0..n).map(|i| ((0..(i % 4)).map(|k| id((i + k * 3) % n)).collect(), co(i))).collect() }, ids.clone()));
+        }
+    }
+    long
+}
+
 pub fn run(ctx: &Ctx) -> Finish {
     let mut fs = functions(Tier::Thorough);
     if ctx.tier == Tier::Thorough {
@@ -305,17 +322,7 @@ pub fn run(ctx: &Ctx) -> Finish {
     // Long functions (term counts around and beyond 32 and 64: blocked / chunked summation must not lose
     // a remainder): distinct ids and ids repeating with period 7, every variant; values by id; the states
     // lacking the id of the first / a middle / the last term
-    let mut long: Vec<(FnRep, Vec<u64>)> = vec![];
-    for n in [31usize, 32, 33, 40, 63, 64, 65, 100] {
-        for period in [usize::MAX, 7] {
-            let id = |i: usize| ((i % period) * 3 + 1) as u64;
-            let co = |i: usize| [1.0, -0.5, 2.0, 0.25, -1.0][i % 5];
-            let ids: Vec<u64> = (0..n).map(id).collect::<BTreeSet<u64>>().into_iter().collect();
-            long.push((FnRep::Lin { terms: (0..n).rev().map(|i| (id(i), co(i))).collect(), c: 0.5 }, ids.clone()));
-            long.push((FnRep::Quad { entries: (0..n).map(|i| (id(i), id((i * 5 + 1) % n), co(i))).collect(), lin: Some(((0..n).map(|i| (id(i), co(i + 1))).collect(), -1.0)) }, ids.clone()));
-            long.push((FnRep::Poly { terms: (0..n).map(|i| ((0..(i % 4)).map(|k| id((i + k * 3) % n)).collect(), co(i))).collect() }, ids.clone()));
-        }
-    }
+    let long = long_functions();
     ctx.note("long_functions", json!(long.len()));
     ctx.par(long.len(), |l, i| {
         let (f, ids) = &long[i];
